@@ -453,11 +453,21 @@ def parseLine(raw, eols=(CRLF, LF, CR ), kind="event line"):
 
     Raise error if eol not found before MAX_LINE_SIZE
     """
+    crlfable = CRLF in eols and CR in eols  # CR as last byte may be half of CRLF
+    skip = False  # True when previous line ended with CR as last byte of raw
     while True:
-        for eol in eols:  # loop over eols unless found
-            index = raw.find(eol)  # not found index == -1
-            if index >= 0:
-                break
+        if skip and raw:  # LF that completes previous CR is not another line
+            if raw[:1] == LF:
+                del raw[:1]
+            skip = False
+
+        index = -1
+        eol = None
+        for candidate in eols:  # earliest eol wins, on tie first in eols
+            i = raw.find(candidate)  # not found i == -1
+            if i >= 0 and (index < 0 or i < index):
+                index = i
+                eol = candidate
 
         if index < 0:  # not found
             if len(raw) > MAX_LINE_SIZE:
@@ -471,6 +481,8 @@ def parseLine(raw, eols=(CRLF, LF, CR ), kind="event line"):
 
         line = raw[:index]
         index += len(eol)  # strip eol
+        if crlfable and eol == CR and index == len(raw):
+            skip = True
         del raw[:index] # remove used bytes
         (yield line)
     return
